@@ -16,6 +16,8 @@ func init() {
 }
 
 func runC05(e *Engine, r *Report) {
+	// borrowed mechanisms (session 6, round 8): the session image and the user data of one snapshot are captured in the same critical section as Prepare (C11)
+	borrow(e, r, "C11", "LS-usersm")
 	defer ruleSessionTableOnly(e, r)
 	const smT = "(*internal/rsm.StateMachine)."
 	mgrUpdate := r.needMethod("internal/rsm", "IManagedStateMachine", "Update")
